@@ -93,6 +93,7 @@ pub fn run_hist(p: &HistProp, tier: &str, rep: &mut Report) {
     for (name, mk) in (p.scenarios)(tier) {
         let sc = mk();
         assert_eq!(sc.name, name, "scenario name mismatch");
+        crate::watchdog::set_scenario(&sc.name);
         let (st, mut v) = bfs(&sc, &refs, &Limits { max_states: p.max_states, deadline });
         let prelude_failed = v.iter().any(|x| x.prop == "?");
         for x in v.iter_mut().filter(|x| x.prop == "?") {
